@@ -396,6 +396,7 @@ func createShimChannel(ctx context.Context, host, shimPath string, rewriteHost b
 			metricHandler.WriteResponseCodeMetric(statusCode)
 			return
 		}
+		verifhook.Gate("ws.closecall.loaded")
 		connections.Delete(msg.ID)
 		verifhook.Emit("WsDelete", "sid", msg.ID, "by", "close")
 		conn.Close()
